@@ -58,7 +58,7 @@ CHECKS = {
    text="Part 1: BFS (depth 5 quick, 6 thorough) over encode / quoted-encode operations on the real Dictionary and QuotedTripleStore, de-duplicated on the exact physical state, with the bijection / stability / disjoint-range / structural-identity invariants checked in every state. Part 2: every ordered pair of the distinct databases reachable by <=3 (thorough <=4) operations over 10 population ops is united with the real SparqlDatabase::union and compared lexically with the union of the two abstract datasets (quads, graph identities incl. empty graphs, quoted terms, probability seeds); operands must denote the same dataset afterwards.",
    note="Small vocabularies; probabilities are a function of the triple (conflicting seeds are not generated); reference in harness/src/reference/termdb.rs."),
  "C04": dict(level="model_checking", design="§3 C04", technique="explicit-state search (BFS to closure, fingerprint de-dup) + plain tree search over store operations on the real DatasetIndex, set-model oracle in every state",
-   text="Explicit-state model checking of the real store: BFS over 41 operations (insert/delete of 12 quads, graph create/clear/drop, clear, rebuild, facade aliases) until the reachable physical state set closes (4 624 states), plus an undeduplicated tree search of every op sequence up to depth 3 (quick) / 4 (thorough); the full observation table (every lookup shape x graph, named/merged/membership/listing, QueryBuilder) is compared with a BTreeSet model in every state. Right level: the property is a history property of a small finite-state object.",
+   text="Explicit-state model checking of the real store: BFS over 41 operations (insert/delete of 12 quads, graph create/clear/drop, clear, rebuild, facade aliases) until the reachable physical state set closes (4 624 states in each of two term universes: subject x object under one predicate, predicate x object under one subject), plus an undeduplicated tree search of every op sequence up to depth 3 (quick) / 4 (thorough); the full observation table (every lookup shape x graph, named/merged/membership/listing, QueryBuilder) is compared with a BTreeSet model in every state. Right level: the property is a history property of a small finite-state object.",
    note="Bounded universe (2 subjects, 2 objects, 1 predicate, 3 graphs); reference model and H3 fingerprint hook are trusted; larger universes only by symmetry."),
 }
 
